@@ -319,14 +319,14 @@ def run_cases(cases, workdir, name="cases"):
                 ok = False
                 log += out[-3000:]
                 continue
-            m = re.search(r"M\s*=\s*\[(.*?)\]\s*:\s*list nat", out, re.S)
+            m = re.search(r"M\s*=\s*\[(.*?)\]\s*:\s*list \(nat \* nat\)", out, re.S)
             if not m:
                 ok = False
                 log += "cannot parse coqc output: " + out[-500:]
                 continue
             body = m.group(1).strip()
             if body:
-                bad += [int(x) for x in re.split(r"[;\s]+", body) if x]
+                bad += [(int(a), int(b)) for a, b in re.findall(r"\((\d+),\s*(\d+)\)", body)]
     return ok, bad, log
 
 
@@ -432,9 +432,11 @@ def _stage(seed, tier, want_malformed):
                     records.append(dict(id=0, pkg=p["name"], file=f["fname"], name="<file>", kind="valid", rc=rc, decl=None, stderr="",
                                         problems=["functions emitted %s != declarations %s" % (got, names)], obs=None))
     ok, bad, log = run_cases(cases, mod, "cases_s")
-    badset = set(bad)
+    badmap = dict(bad)
     for r in records:
-        r["model_mismatch"] = r["id"] in badset
+        r["model_mismatch"] = r["id"] in badmap
+        k = badmap.get(r["id"], 0)
+        r["mismatch_kinds"] = [n for b, n in ((1, "verdict"), (2, "sig"), (4, "items")) if k & b]
     keep = os.path.join(vlib.CACHE, "stage", "S-src-%s-%s" % (seed, tier))
     shutil.rmtree(keep, ignore_errors=True)
     shutil.copytree(mod, keep, ignore=shutil.ignore_patterns("*.vo", "*.glob", "*.aux", "*.vok", "*.vos"))
